@@ -23,9 +23,9 @@ check in `harness/props/c07.py` — kinds `ba` and `call` compare them with CPyt
   that name (`TypeError` if already filled positionally), otherwise it goes to `**kwargs` or is a
   `TypeError`; an unfilled parameter takes its default or is a `TypeError`.
 
-Names and values are `Nat` tokens; dicts are association lists whose keys are distinct (an invariant
-of every dict that occurs: hypotheses `Nodup` in the theorems, `baKwargs_nodup` for the one built
-here). `none` stands for `TypeError` (the only exception any of this code raises).
+Names and values are `Nat` tokens; dicts are association lists (first occurrence wins). The dict that
+`ba.kwargs` builds is modelled by list append; `baKwargs_nodup` (Lemmas/BinderCorner) proves that on
+`bind_expected`'s result no key is inserted twice, so append *is* dict insertion there. `none` stands for `TypeError` (the only exception any of this code raises).
 
 `fixed = false` is the code before commit 7cfa348 (defect D5: a keyword-only parameter met while
 positional arguments are left over was consumed from the parameter iterator and never looked at again);
@@ -149,7 +149,7 @@ def ArgVal.vals : ArgVal → List Val
 /-- entries an argument contributes to `ba.kwargs`: `kwargs[name] = arg` / `kwargs.update(arg)`.
 (A `*args` tuple stored under its name cannot be written as a `Val`; it does not arise: `ba.kwargs`
 reaches a `*args` entry only after a missing positional parameter, and `bind_expected` fills `*args`
-only after all of them — lemma `bind_closed`.) -/
+only after all of them — lemma `bound_closed`.) -/
 def ArgVal.items (n : Name) : ArgVal → KW
   | .one v => [(n, v)]
   | .dict d => d
